@@ -71,6 +71,8 @@ class Session:
 
         # decrypted TLS 1.3 handshake bytes not yet consumed as whole messages, per direction (key: isserver)
         self.handshake_buffer = {True: b"", False: b""}
+        # bytes of a plaintext handshake message fragmented across records that are still to come, per direction
+        self.handshake_pending = {True: 0, False: 0}
 
         self.can_decrypt = False
         self.client_hello_seen = False
@@ -319,6 +321,15 @@ class Session:
             return
 
         if len(record.binary) == 0:
+            return
+
+        # a handshake message may be fragmented across records (RFC 5246 6.2.1): a record that starts inside one has no message header
+        continued = self.handshake_pending[isserver]
+        index = continued
+        while index + 4 <= len(record.binary):
+            index += 4 + int.from_bytes(record.binary[index + 1:index + 4], 'big')
+        self.handshake_pending[isserver] = max(index - len(record.binary), 0)
+        if continued > 0:
             return
 
         match record.binary[0]:
